@@ -54,7 +54,7 @@ def _variant(name, how):
 def wf_spec():
     """one well-formed setting spec (each resulting setting is one complete SGR parameter group)."""
     name = st.one_of(st.sampled_from(CORE_NAMES), st.sampled_from(CORE_NAMES), st.sampled_from(NAMES))
-    byte = st.sampled_from([0, 1, 2, 5, 128, 255])
+    byte = st.sampled_from([0, 1, 2, 5, 128, 255, 38, 48, 58, 5, 2])   # 38/48/58 + 5/2: arguments that look like group introducers
     comp = st.sampled_from(['fg', 'fg', 'bg', 'ul', 'dul'])
     return st.one_of(
         st.tuples(name, st.sampled_from([0, 0, 0, 1, 2, 3])).map(lambda t: {'k': 'name', 'v': _variant(*t)}),
